@@ -2260,6 +2260,14 @@ class Power(Array):
             p = self.power.value.copy()
             p -= p != 0 # exclude zero powers from decrement to avoid potential division by zero errors
             return einsum('A,A,AB->AB', self.power, power(self.func, p), derivative(self.func, var, seen))
+        p = self.power._const_uniform
+        if p is not None:
+            # uniform constant power that is not a `Constant` instance (e.g. a
+            # broadcast scalar): same as above, keeping the decremented power
+            # recognisable as a uniform constant for repeated differentiation
+            if p == 0:
+                return zeros(self.shape + var.shape, dtype=self.dtype)
+            return einsum('A,A,AB->AB', self.power, power(self.func, appendaxes(constant(self.power.dtype(p - 1)), self.shape)), derivative(self.func, var, seen))
         # self = func**power
         # ln self = power * ln func
         # self` / self = power` * ln func + power * func` / func
